@@ -30,25 +30,24 @@ import (
 // reader used plus one; nothing a reader holds ever changes.
 // ---------------------------------------------------------------------------------------------
 
-type simBlock struct {
-	ident string
-	txs   []TxSpec
-}
-
 // sequencer is the scripted feeder gateway: a run of pre-confirmed blocks above its notion of the
-// canonical head, answered with the delta-sync protocol (no-change / appended txs / full block).
+// canonical head (content: validRun — diffs well-formed on the abstract canonical state, or
+// arbitrary), answered with the delta-sync protocol (no-change / appended txs / full block).
 type sequencer struct {
 	mu      sync.Mutex
 	r       *lib.RNG
-	blocks  map[uint64]*simBlock
-	lo, hi  uint64 // pre-confirmed numbers lo..hi exist (lo = canonical head + 1)
-	round   int
-	seq     txSeq
+	vr      *validRun
 	latest  atomic.Int64
 	byNum   atomic.Int64
 	classes atomic.Int64
 	errPct  int // injected endpoint failures (poller error / retry paths: failed tick, backfill aborted half way)
 	failed  atomic.Int64
+	badOnce atomic.Bool // serve the next full block ill-formed (once)
+}
+
+func newSequencer(r *lib.RNG, arbitrary bool, errPct int) *sequencer {
+	return &sequencer{r: r, errPct: errPct,
+		vr: &validRun{r: r.Fork(11), blocks: map[uint64]*vblock{}, casm: !arbitrary, arbitrary: arbitrary}}
 }
 
 var errSequencer = errors.New("scripted sequencer: injected failure")
@@ -62,31 +61,12 @@ func (s *sequencer) fail() bool {
 	return false
 }
 
-func (s *sequencer) newBlock(num uint64) {
-	s.round++
-	s.blocks[num] = &simBlock{ident: fmt.Sprintf("p%d-%d", num, s.round),
-		txs: genTxs(s.r, s.r.Intn(3), &s.seq, func() DiffSpec { return genAnyDiff(s.r, 2) })}
-}
-
-// realign makes lo = head+1 (the sequencer follows the canonical chain; after a revert the blocks
-// above the new head are new rounds).
-func (s *sequencer) realign(head uint64, reverted bool) {
+// realign makes lo = head+1 on the abstract canonical state st; keep = the head advanced onto the
+// pre-confirmed block (the blocks above stay), otherwise the blocks above the head are new rounds.
+func (s *sequencer) realign(head uint64, st *abs, keep bool) {
 	s.mu.Lock()
 	defer s.mu.Unlock()
-	for n := range s.blocks {
-		if n <= head || reverted {
-			delete(s.blocks, n)
-		}
-	}
-	s.lo = head + 1
-	if s.hi < s.lo || reverted {
-		s.hi = s.lo
-	}
-	for n := s.lo; n <= s.hi; n++ {
-		if s.blocks[n] == nil {
-			s.newBlock(n)
-		}
-	}
+	s.vr.realign(head, st, keep)
 }
 
 // evolve is one step of the sequencer's own life: append transactions to the latest block, open
@@ -94,27 +74,34 @@ func (s *sequencer) realign(head uint64, reverted bool) {
 func (s *sequencer) evolve() {
 	s.mu.Lock()
 	defer s.mu.Unlock()
+	v := s.vr
 	switch c := s.r.Intn(10); {
 	case c < 5:
-		b := s.blocks[s.hi]
-		b.txs = append(b.txs, genTxs(s.r, 1+s.r.Intn(2), &s.seq, func() DiffSpec { return genAnyDiff(s.r, 2) })...)
+		v.appendTxs(v.hi)
 	case c < 8:
-		if s.hi-s.lo < 4 {
-			s.hi++
-			s.newBlock(s.hi)
+		if v.hi-v.lo < 4 {
+			v.hi++
+			v.newBlock(v.hi)
 		}
 	default:
-		n := s.lo + uint64(s.r.Intn(int(s.hi-s.lo)+1))
-		s.newBlock(n)
-		for m := n + 1; m <= s.hi; m++ { // what was built on the old round is gone
-			delete(s.blocks, m)
-		}
-		s.hi = n
+		v.restart(v.lo + uint64(s.r.Intn(int(v.hi-v.lo)+1)))
 	}
 }
 
+// isCurrent: every entry of the view is a round the sequencer currently serves.
+func (s *sequencer) isCurrent(v *preconfirmed.ChainReader) bool {
+	s.mu.Lock()
+	defer s.mu.Unlock()
+	for e := range v.NewestFirst() {
+		if b := s.vr.blocks[e.Block.Number]; b == nil || b.ident != e.BlockIdentifier {
+			return false
+		}
+	}
+	return true
+}
+
 func (s *sequencer) respond(n uint64, ident string, txCount uint64) (starknet.PreConfirmedUpdate, error) {
-	b := s.blocks[n]
+	b := s.vr.blocks[n]
 	if b == nil {
 		return nil, fmt.Errorf("sequencer: no pre-confirmed block %d", n)
 	}
@@ -128,6 +115,9 @@ func (s *sequencer) respond(n uint64, ident string, txCount uint64) (starknet.Pr
 		}
 	}
 	u := UpdateSpec{Kind: "B", Ident: b.ident, VerOk: true, Txs: append([]TxSpec{}, b.txs...)}
+	if len(b.txs) > 0 && s.badOnce.CompareAndSwap(true, false) {
+		u.Malform = "short-receipts"
+	}
 	return u.wire(n), nil
 }
 
@@ -138,8 +128,8 @@ func (s *sequencer) PreConfirmedBlockLatest(_ context.Context, ident string, txC
 	if s.fail() {
 		return nil, 0, errSequencer
 	}
-	u, err := s.respond(s.hi, ident, txCount)
-	return u, s.hi, err
+	u, err := s.respond(s.vr.hi, ident, txCount)
+	return u, s.vr.hi, err
 }
 
 func (s *sequencer) PreConfirmedBlockByNumber(_ context.Context, n uint64, ident string, txCount uint64) (starknet.PreConfirmedUpdate, error) {
@@ -160,6 +150,15 @@ func (s *sequencer) Class(_ context.Context, h *felt.Felt) (core.ClassDefinition
 	if failed {
 		return nil, errSequencer
 	}
+	s.mu.Lock()
+	defer s.mu.Unlock()
+	for _, b := range s.vr.blocks { // the definition the declaring block carries
+		for _, c := range b.classes {
+			if c[0] == h.Uint64() {
+				return classDef(c[1]), nil
+			}
+		}
+	}
 	return classDef(3000 + h.Uint64()), nil
 }
 
@@ -174,7 +173,7 @@ func (h *harness) pollerRound(rng *lib.RNG, round int) {
 	base, states := genBase(rng, nBase)
 	node, err := buildBase(rng.Bool(), base)
 	if err != nil {
-		h.res.Note("poller setup: %v", err)
+		h.res.Fatalf("poller stage: setup failed: %v", err)
 		return
 	}
 	st := states[nBase-1].clone()
@@ -189,8 +188,8 @@ func (h *harness) pollerRound(rng *lib.RNG, round int) {
 		return 0
 	}
 	head := setHighest()
-	sim := &sequencer{r: rng.Fork(7), blocks: map[uint64]*simBlock{}, errPct: 10}
-	sim.realign(head, false)
+	sim := newSequencer(rng.Fork(7), false, 10)
+	sim.realign(head, st, false)
 	out := feed.New[*pending.PreConfirmed]()
 	sub := out.Subscribe()
 	defer sub.Unsubscribe()
@@ -213,7 +212,7 @@ func (h *harness) pollerRound(rng *lib.RNG, round int) {
 	}()
 
 	var stop atomic.Bool
-	var views, nonEmpty, maxLen, published atomic.Int64
+	var views, nonEmpty, maxLen, published, stateChecked, discarded atomic.Int64
 	// feed consumer: what the poller publishes must be entries with a header
 	wg.Add(1)
 	go func() {
@@ -261,16 +260,35 @@ func (h *harness) pollerRound(rng *lib.RNG, round int) {
 					if int64(v.Length()) > maxLen.Load() {
 						maxLen.Store(int64(v.Length()))
 					}
-					if rr.Chance(1, 6) {
-						_, _, _ = lib.Try(func() error {
-							sr, _, err := v.PreConfirmedStateAt(v.Head().Block.Number, node.bc)
-							if err == nil {
-								_ = reads(sr)
-							} else if errors.Is(err, pending.ErrPreConfirmedNotFound) {
-								violate("poller-view-tip-not-found", "PreConfirmedStateAt(tip) of a non-empty view: not found")
-							}
+					if rr.Chance(1, 4) {
+						// the state oracle with the real poller as writer and the head really moving: every
+						// block of the view against specReads over the canonical state at `height`; it
+						// counts only if the head did not move and the view's rounds were the sequencer's
+						// current ones before and after (see live.go)
+						cur1 := sim.isCurrent(&v)
+						var sec, what string
+						var n int
+						if err, panicked, stack := lib.Try(func() error {
+							sec, what, n = viewStateOracle(node.bc, &v, height)
 							return nil
-						})
+						}); panicked {
+							violate("poller-state-read-panics", fmt.Sprintf("a state read through a view panicked: %v\n%s", err, clip(stack)))
+						}
+						h2, _ := node.bc.Height()
+						switch {
+						case h2 != height || !cur1 || !sim.isCurrent(&v):
+							discarded.Add(1)
+						case sec != "":
+							violate("poller-overlay-"+sec, what)
+						default:
+							stateChecked.Add(int64(n))
+						}
+					}
+					if rr.Chance(1, 8) {
+						hsh := lib.Pick(rr, uniHashes)
+						if msg := lookupOracle(&v, hsh); msg != "" {
+							violate("poller-"+msg, fmt.Sprintf("lookup of hash %d in the view for height %d", hsh, height))
+						}
 					}
 					if len(keep) < 48 {
 						keep = append(keep, held{v: v, hash: deepHash(&v)})
@@ -303,19 +321,38 @@ func (h *harness) pollerRound(rng *lib.RNG, round int) {
 		case c < 6:
 			sim.evolve()
 		case c < 9 || node.height <= 2: // a block is finalised: the head advances
+			// mostly the pre-confirmed block itself becomes canonical (what was sent, folded); sometimes
+			// another block does (the blocks above are then new rounds)
+			n := uint64(node.height)
+			same := rng.Chance(3, 4)
+			var diff *core.StateDiff
 			var cls [][2]uint64
-			d := genValidDiff(rng, st, 2, &cls, map[uint64]bool{})
-			if err := node.finalise(d.coreDiff(), classMap(cls)); err != nil {
-				h.res.Note("poller stage: finalise: %v", err)
+			// the move of the canonical head and the sequencer's realignment are one step for the
+			// readers' validity bookkeeping (isCurrent takes the same lock)
+			sim.mu.Lock()
+			if b := sim.vr.blocks[n]; same && b != nil {
+				diff, cls = sim.vr.sent(n)
+				st = b.after.clone()
+			} else {
+				same = false
+				d := genValidDiff(rng, st, 2, &cls, map[uint64]bool{})
+				diff = d.coreDiff()
+			}
+			if err := node.finalise(diff, classMap(cls)); err != nil {
+				sim.mu.Unlock()
+				h.res.Fatalf("poller stage: the canonical node rejected a generated block: %v", err)
 				i = steps
 				break
 			}
 			states = append(states, st.clone())
-			sim.realign(setHighest(), false)
+			sim.vr.realign(setHighest(), st, same)
+			sim.mu.Unlock()
 			moves++
 		default: // the head reverts by one
+			sim.mu.Lock()
 			if err := node.bc.RevertHead(); err != nil {
-				h.res.Note("poller stage: revert: %v", err)
+				sim.mu.Unlock()
+				h.res.Fatalf("poller stage: RevertHead failed: %v", err)
 				i = steps
 				break
 			}
@@ -325,7 +362,8 @@ func (h *harness) pollerRound(rng *lib.RNG, round int) {
 			if hd, err := node.bc.HeadsHeader(); err == nil {
 				node.lastHash, node.lastRoot = hd.Hash, hd.GlobalStateRoot
 			}
-			sim.realign(setHighest(), true)
+			sim.vr.realign(setHighest(), st, false)
+			sim.mu.Unlock()
 			moves++
 		}
 	}
@@ -343,6 +381,8 @@ func (h *harness) pollerRound(rng *lib.RNG, round int) {
 	h.res.HitN("poller-published-entries", int(published.Load()))
 	h.res.HitN("poller-head-moves", moves)
 	h.res.HitN("poller-reader-views", int(views.Load()))
+	h.res.HitN("poller-view-blocks-checked-against-spec", int(stateChecked.Load()))
+	h.res.HitN("poller-state-comparisons-discarded-moved", int(discarded.Load()))
 	h.res.HitN("poller-reader-views-nonempty", int(nonEmpty.Load()))
 	h.res.HitN(fmt.Sprintf("poller-max-view-len=%d", min(maxLen.Load(), 5)), 1)
 	h.res.Case(fmt.Sprintf("poller/%d/%d", h.f.Seed, round), nonEmpty.Load() > 0)
